@@ -317,7 +317,9 @@ def handleSim (input impl : Json) : R Reply := do
   let limit := genesis + duration + padding
   let inRange (b : Int) : Bool := decide (genesis ≤ b) && decide (b ≤ limit)
   let expected := expectedPerforms ups logs
-  let performIncs := groupCounts ((rows.filter (·.included)).map fun r => (r.block : Int))
+  -- performed ON THE SIMULATED CHAIN: included in one of the blocks genesis … limit that the chain produced
+  let offChain := rows.filter fun r => !onChain genesis limit r
+  let performIncs := groupCounts ((rows.filter fun r => r.included && onChain genesis limit r).map fun r => (r.block : Int))
   let upkeepIncs := groupCounts ((ups.map (·.createInBlock)).filter inRange)
   let logIncs := groupCounts ((logs.map (·.triggerAt)).filter inRange)
   let mk (total : Nat) (incs : List Nat) : Nat × List Sel := (total, incs.map Sel.inc ++ [.done])
@@ -350,7 +352,7 @@ def handleSim (input impl : Json) : R Reply := do
     | none => 0
   let recOk := recordOk f checks sent rows
   let verdictOk := verdictFaithful trackers got
-  let si := finished && childExit = 0 && verdictOk && summaryEnd && savedOk && recOk && races = 0
+  let si := finished && childExit = 0 && verdictOk && summaryEnd && savedOk && recOk && races = 0 && offChain.isEmpty
   let sm := match model with
     | some v => verdictFaithful trackers v
     | none => false
@@ -359,8 +361,11 @@ def handleSim (input impl : Json) : R Reply := do
     else if races ≠ 0 then s!"data race in repository code ({races}): {raceSites.eraseDups}"
     else if crash ≠ "" && races = 0 && crashInSummary then s!"run summary crashed: {crash} at {crashAt}"
     else if crash ≠ "" && races = 0 then s!"simulation crashed: {crash} at {crashAt}"
+    else if stage = "hang" then s!"the run hangs: {resErr} — no exit status"
     else if !finished || childExit ≠ 0 then s!"simulation did not terminate normally (stage {stage}, child exit {childExit}): {resErr}"
     else if !summaryEnd then "run summary crashed or was not finished"
+    else if !offChain.isEmpty then
+      s!"{offChain.length} transmitted upkeep(s) recorded (and counted) in block {(offChain.head?.map (·.block)).getD 0}, which the chain never produced (last block {limit}); verdict {got}, performed on chain {performIncs.sum} of {expected} expected"
     else if !verdictOk then
       (if got then "success reported although a counter was not satisfied" else "failure reported although every counter was satisfied")
     else if !savedOk then "saved plan cannot be loaded back unchanged"
@@ -371,9 +376,12 @@ def handleSim (input impl : Json) : R Reply := do
     (if got then ["verdict-success"] else ["verdict-failure"]) ++
     (if rows.isEmpty then ["no-transmits"] else ["transmits"]) ++
     (if rows.any (fun r => !r.included) then ["transmit-never-included"] else []) ++
+    (if !offChain.isEmpty then ["transmit-in-phantom-block"] else []) ++
+    (if decide (duration + padding > 101) then ["blocks>101"] else []) ++
     (if decide (performed > expected) && expected > 0 then ["overshoot"] else []) ++
     (if ups.length ≤ 2 then [s!"upkeeps={ups.length}"] else ["upkeeps>2"]) ++
     (if raceBuild then ["race-build"] else []) ++
+    (if (boolF input "realtime").toOption.getD false then ["real-clock"] else []) ++
     (if crash ≠ "" then [if crashInSummary then "summary-crash" else "crash"] else []) ++
     (racesIgnored.eraseDups.map fun site => s!"ignored-go-pretty-race:{site}")
   pure { agree := agree, specModel := sm, specImpl := si,
